@@ -10,7 +10,7 @@ EXTRA = {"C01-1": ["C18", "C05"], "C01-3": ["C02"], "C04-1": ["C13"], "C04-2": [
          "C06-7": ["C02"], "C07-8": ["C09"], "C08-7": ["C09", "C17"], "C10-8": ["C17"], "C10-9": ["C17", "C03"], "C12-8": ["C13"], "C14-7": ["C03", "C01"], "C14-8": ["C01"], "C14-9": ["C03", "C01"], "C18-7": ["C02"], "C18-8": ["C01", "C07"], "C18-9": ["C01"], "C11-9": ["C12"],
          "C01-10": ["C14", "C18"], "C01-11": ["C12"], "C01-12": ["C02"], "C02-10": ["C01", "C15"], "C03-10": ["C01"], "C03-11": ["C16"], "C03-12": ["C01"], "C05-10": ["C01"], "C05-11": ["C01"], "C05-12": ["C01"], "C06-10": ["C07"], "C07-12": ["C06"], "C09-10": ["C07", "C06"], "C10-12": ["C17"], "C12-10": ["C13"], "C12-11": ["C13"], "C12-12": ["C11"], "C13-12": ["C12"], "C14-10": ["C18", "C01"], "C14-11": ["C02"], "C14-12": ["C02"], "C15-10": ["C01"], "C15-12": ["C18", "C02"], "C16-12": ["C03"], "C17-11": ["C11"], "C18-10": ["C02", "C15"], "C18-11": ["C02"], "C18-12": ["C11"], "C14-9": ["C03"], "C17-9": ["C01", "C05"],
          "C02-13": ["C16"], "C03-13": ["C16"], "C03-14": ["C10"], "C06-14": ["C10"], "C06-15": ["C02"], "C14-13": ["C01"], "C14-14": ["C02"], "C14-15": ["C15"], "C15-15": ["C16"], "C13-13": ["C12"], "C10-12": ["C17"],
-         "C01-16": ["C11"], "C01-18": ["C07"], "C10-17": ["C17"], "C10-18": ["C15"], "C14-16": ["C03"], "C18-16": ["C15"], "C09-18": ["C08"], "C09-16": ["C08"]}
+         "C01-16": ["C11"], "C01-18": ["C07"], "C10-17": ["C17"], "C10-18": ["C15"], "C14-16": ["C03"], "C18-16": ["C15"], "C09-18": ["C08"], "C09-16": ["C08"], "C18-17": ["C15"]}
 import shutil, threading
 from concurrent.futures import ThreadPoolExecutor
 NPAR = int(os.environ.get("SEEDMATRIX_PAR", "3"))
